@@ -80,6 +80,9 @@ def run_socket(case):
         for s in range(case['per_requester']):
             spec = payload_spec(rng, case['big'])
             latency = rng.choice([0, 0, 0.001, 0.004, 0.012])
+            if rng.random() < 0.06:
+                # around the transports' polling intervals (0.1 s read timeouts, 1 s)
+                latency = round(rng.choice([rng.uniform(0.095, 0.108), rng.uniform(0.095, 0.108), rng.uniform(0.195, 0.205), rng.uniform(0.99, 1.02)]), 4)
             fail = rng.random() < 0.1
             reqs.append(((c, s), latency, fail, spec))
         plans.append(reqs)
@@ -105,6 +108,8 @@ def run_socket(case):
                                 viol.append({'mech': 'socket/stream-count', 'msg': f'stream yielded {k} of {len(items)}'})
                         return
                     for tag, lat, fail, spec in mine:
+                        if c == 0 and tag[1] % 7 == 3:
+                            time.sleep(0.1 + (tag[1] % 5) * 0.002)  # the connection sits idle for about one read timeout
                         payload = targets.make_payload(spec)
                         dg = targets.digest(payload)
                         route = '/tagged'
